@@ -1669,8 +1669,8 @@ theorem head_dropWhile {α} (p : α → Bool) (l : List α) (x : α) (h : (l.dro
     · rename_i hp; simp at h; subst h; simpa using hp
 
 /-- `basename(arg.rstrip("/"))` is the last non-empty component of `arg` -/
-theorem dirName_eq (a : Str) : toPath (basename (rstripSlash a)) = dirName a := by
-  unfold dirName
+theorem lastName_eq (a : Str) : toPath (basename (rstripSlash a)) = lastName a := by
+  unfold lastName
   have hsplit : a = rstripSlash a ++ (a.reverse.takeWhile (· = '/')).reverse := by
     unfold rstripSlash
     rw [← List.reverse_append, List.takeWhile_append_dropWhile, List.reverse_reverse]
@@ -1714,6 +1714,11 @@ theorem dirName_eq (a : Str) : toPath (basename (rstripSlash a)) = dirName a := 
     rw [splitOn_decomp '/' r e he, toPath_append_sep, toPath_no_slash e he hne]
     simp [toPath_no_slash e he hne]
 
+/-- the top-level destination directory of `_install_from_dirs` is the prescribed one, `dir/.` included -/
+theorem dirName_eq (a : Str) : topDir a = dirName a := by
+  unfold topDir dirName
+  simp only [lastName_eq]
+
 theorem fromDirs_rel (c : Ctx) (ts : List Target) : TreeRel (fromDirs c ts) (trees c ts) := by
   induction ts with
   | nil => simp [fromDirs, trees, TreeRel, pure, Except.pure]
@@ -1721,7 +1726,7 @@ theorem fromDirs_rel (c : Ctx) (ts : List Target) : TreeRel (fromDirs c ts) (tre
     rw [fromDirs, trees]
     cases hn : t.node with
     | dir kids =>
-      have h := walkDir_rel c (toPath (basename (rstripSlash t.arg))) kids
+      have h := walkDir_rel c (topDir t.arg) kids
       rw [dirName_eq] at h
       simp only [under, bind, Except.bind, pure, Except.pure]
       cases hw : walkDir c (dirName t.arg) kids with
